@@ -338,7 +338,8 @@ func cmdCheck(args []string) {
 			if len(samples) < 12 {
 				samples = append(samples, map[string]interface{}{"harness": spec.Name, "kind": "reachability witness (solver model)", "cover": lab, "inputs": wit})
 			}
-			if *noReplay {
+			if *noReplay || strings.Contains(lab, "(virtual-time)") {
+				// paths that need minutes of virtual time are not replayed natively
 				continue
 			}
 			oc, err := rp.run(spec.Pkg, spec.Name, wit, filepath.Join(workDir, "w.json"), 90*time.Second)
